@@ -529,11 +529,45 @@ impl<S: Storage> Builder<S> {
             .register(id, span.clone(), output_row_counter.clone());
 
         let (tx, rx) = async_broadcast::broadcast(16);
+        // verif hook H4: every spawned operator task gets a tag `<spawn seq>.<node name>`
+        // (spawn order = post-order of the plan tree), announced at `exec.spawn`.
+        #[cfg(risinglight_verif)]
+        let verif_tag = {
+            static VERIF_SPAWN_SEQ: std::sync::atomic::AtomicUsize =
+                std::sync::atomic::AtomicUsize::new(0);
+            let seq = VERIF_SPAWN_SEQ.fetch_add(1, std::sync::atomic::Ordering::SeqCst);
+            let tag = format!("{seq}.{name}");
+            crate::verif::point_sync("exec.spawn", &tag);
+            tag
+        };
         let handle = tokio::task::Builder::default()
             .name(&format!("{id}.{name}"))
             .spawn(
                 async move {
+                    #[cfg(risinglight_verif)]
+                    let mut verif_k = 0usize;
                     while let Some(item) = stream.next().await {
+                        // verif hook H4: fault-injection point `exec.chunk`, detail
+                        // `<tag>#<item index>#ok:<rows>|err`. `Action::Error` replaces the item
+                        // by an error after which the task ends; `Action::Panic` panics here
+                        // (inside `point_sync`). Disarmed (no hook installed) it is a no-op.
+                        #[cfg(risinglight_verif)]
+                        let (item, verif_stop) = {
+                            let what = match &item {
+                                Ok(chunk) => format!("ok:{}", chunk.cardinality()),
+                                Err(_) => "err".to_string(),
+                            };
+                            let action = crate::verif::point_sync(
+                                "exec.chunk",
+                                &format!("{verif_tag}#{verif_k}#{what}"),
+                            );
+                            verif_k += 1;
+                            if action == crate::verif::Action::Error {
+                                (Err(ExecutorError::aborted()), true)
+                            } else {
+                                (item, false)
+                            }
+                        };
                         if let Ok(chunk) = &item {
                             output_row_counter.inc(chunk.cardinality() as _);
                         }
@@ -541,7 +575,14 @@ impl<S: Storage> Builder<S> {
                             // all receivers are dropped, stop the task.
                             return;
                         }
+                        #[cfg(risinglight_verif)]
+                        if verif_stop {
+                            return;
+                        }
                     }
+                    // verif hook H4: the operator's stream ended normally.
+                    #[cfg(risinglight_verif)]
+                    crate::verif::point_sync("exec.end", &format!("{verif_tag}#{verif_k}"));
                 }
                 .instrument(tracing::info_span!("executor", id = usize::from(id), name))
                 .timed(span),
@@ -554,6 +595,11 @@ impl<S: Storage> Builder<S> {
         }
     }
 }
+
+/// verif hook: the broadcast channel crate `Builder::spawn` uses, for the channel-model
+/// correspondence run of /verif (C15).
+#[cfg(risinglight_verif)]
+pub use async_broadcast as verif_broadcast;
 
 /// A subscriber of an executor's output stream.
 ///
